@@ -108,6 +108,18 @@ reg(
     "DESIGN.md 4.2 C16",
 )
 
+reg(
+    "C17",
+    "All loop nests up to depth 3 with every (lb, ub, step) from a menu (ub not a multiple of the step, zero-trip, lb != 0 included), each bound constant or "
+    "a run-time argument, and every placement of tagged side-effecting / pure ops before and after the inner loop, go through the real "
+    "pipeline-canonicalize-for; a family of allocation / memref.dim / subview / affine.min placements in single, nested and conditional loops goes through "
+    "the real reuse-memref-allocs. Input and output are executed and the sequences of (tag, evaluated index operands, run-time shapes of memref operands) "
+    "must be identical; use-before-def is detected by the interpreter.",
+    "Trusted: machines/ir.py, machines/memview.py. Loop-carried values (iter_args) and depth > 3 are outside the enumerated space; part B is a hand-listed family (72 programs x 3 shapes).",
+    "bounded-exhaustive program enumeration, execution trace equality on an abstract machine",
+    "DESIGN.md 4.4 C17",
+)
+
 NOT_APPLICABLE = []
 
 ALL = [f"C{i:02d}" for i in range(1, 21)]
